@@ -95,7 +95,7 @@ var (
 		{"killdate", len(vKillDate)}, {"hours", len(vHours)}, {"method", len(vMethod)}, {"rotation", len(vRotation)},
 	}
 
-	vPipe   = []string{"demon_pipe", "a b\\c"}
+	vPipe   = []string{"demon_pipe", "a b\\c", "win$vc#host@x!y", `\\.\pipe\already-prefixed`, ""} // plain, blank and backslash, every placeholder character of the pipe-name template helper, a name that is already a pipe path, empty
 	smbDims = []dim{{"pipe", len(vPipe)}, {"killdate", len(vKillDate)}, {"hours", len(vHours)}}
 )
 
